@@ -5,6 +5,7 @@ use serde_json::Value;
 use super::engine::Ctx;
 
 pub mod c01;
+pub mod c02;
 pub mod c09;
 
 pub struct Meta {
@@ -18,11 +19,12 @@ pub struct Meta {
     pub exhaustive_when_sections: &'static [&'static str],
 }
 
-pub const ALL: &[&str] = &["C01", "C09"];
+pub const ALL: &[&str] = &["C01", "C02", "C09"];
 
 pub fn run(id: &str, ctx: &mut Ctx) {
     match id {
         "C01" => c01::run(ctx),
+        "C02" => c02::run(ctx),
         "C09" => c09::run(ctx),
         _ => ctx.infra(format!("no such property {}", id)),
     }
@@ -31,6 +33,7 @@ pub fn run(id: &str, ctx: &mut Ctx) {
 pub fn replay(id: &str, section: &str, case: &Value, ctx: &mut Ctx) {
     match id {
         "C01" => c01::replay(section, case, ctx),
+        "C02" => c02::replay(section, case, ctx),
         "C09" => c09::replay(section, case, ctx),
         _ => ctx.infra(format!("no such property {}", id)),
     }
@@ -39,6 +42,7 @@ pub fn replay(id: &str, section: &str, case: &Value, ctx: &mut Ctx) {
 pub fn meta(id: &str) -> Meta {
     match id {
         "C01" => c01::META,
+        "C02" => c02::META,
         "C09" => c09::META,
         _ => Meta { rule: "", assumptions: &[], required_classes: &[], exhaustive_when_sections: &[] },
     }
